@@ -35,7 +35,7 @@ def hostShape_PacketCommitmentPath : String := "fmt.Sprintf(\"%s/%d\", PacketCom
 def hostShape_PacketCommitmentPrefixPath : String := "fmt.Sprintf(\"%s/%s/%s\", KeyPacketCommitmentPrefix, packetPath(sourceChain, destinationChain), KeySequencePrefix)"
 def hostShape_PacketAcknowledgementPath : String := "fmt.Sprintf(\"%s/%d\", PacketAcknowledgementPrefixPath(sourceChain, destinationChain), sequence)"
 def hostShape_PacketAcknowledgementPrefixPath : String := "fmt.Sprintf(\"%s/%s/%s\", KeyPacketAckPrefix, packetPath(sourceChain, destinationChain), KeySequencePrefix)"
-def hostShape_PacketReceiptPath : String := "fmt.Sprintf(\"%s/%x\", PacketReceiptPrefixPath(sourceChain, destinationChain), sequence)"
+def hostShape_PacketReceiptPath : String := "fmt.Sprintf(\"%s/%d\", PacketReceiptPrefixPath(sourceChain, destinationChain), sequence)"
 def hostShape_PacketReceiptPrefixPath : String := "fmt.Sprintf(\"%s/%s/%s\", KeyPacketReceiptPrefix, packetPath(sourceChain, destinationChain), KeySequencePrefix)"
 def hostShape_CleanPacketCommitmentPath : String := "fmt.Sprintf(\"%s/%s\", KeyCleanPacketCommitmentPrefix, packetPath(sourceChain, destinationChain))"
 def hostShape_MaxAckSeqPath : String := "fmt.Sprintf(\"%s/%s\", keyMaxAckSeqPrefix, packetPath(sourceChain, destinationChain))"
